@@ -518,168 +518,167 @@ theorem projects_without_submodules (v : Variant) (sv : SVariant) (pairable orde
     corrProjectS v sv pairable order PState.empty us = corrProject v [] (us.map fun u => (kindIsMod u.1, u.2)) :=
   corrProjectS_plain v sv pairable order us h PState.empty
 
-/-! ### tie to the source: structure of `FortranCodeUnit.correlate` (generated) -/
+/-! ### tie to the code: decision tables probed on the working tree (generated)
 
-/-- the recursion visits functions, then subroutines, then (after the nested units)
-    the variables; derived types are correlated before the recursion - the order the
+Every table of `Generated/C07.lean` but `nameTableOps` is OBSERVED: `translate/c07.py` runs the
+implementation under test on small witness projects and records what it did.  The theorems below say
+that these decisions are the ones the model makes. -/
+
+/-- the recursion visits functions, then subroutines, then (after the nested units) the interfaces
+    and the variables; derived types are correlated before the recursion - the order the
     model's `corr` uses (`Phase.early` / funcs / subs / `Phase.late`). -/
 theorem recursion_order_generated :
     Ford.C07Gen.correlateRecursion.take 2 = ["functions", "subroutines"] ∧
       Ford.C07Gen.correlateRecursion.idxOf "subroutines" < Ford.C07Gen.correlateRecursion.idxOf "variables" ∧
-      "variables" ∈ Ford.C07Gen.correlateRecursion ∧
+      Ford.C07Gen.correlateRecursion.idxOf "subroutines" < Ford.C07Gen.correlateRecursion.idxOf "interfaces" ∧
+      "variables" ∈ Ford.C07Gen.correlateRecursion ∧ "interfaces" ∈ Ford.C07Gen.correlateRecursion ∧
       Ford.C07Gen.typesBeforeRecursion = true := by decide
 
 /-- the three host tables reach a nested unit in one of the shapes the model has a
     variant for -/
 theorem host_tables_generated :
     (Ford.C07Gen.hostTables.map (·.1) = ["all_procs", "all_absinterfaces", "all_types"]) ∧
-      (Ford.C07Gen.hostTables.all fun x =>
-        x.2 == "update" || x.2 == "alias" || x.2 == "copy" || x.2 == "merge-local-over-host") = true := by
+      (Ford.C07Gen.hostTables.lookup "all_procs" = some "update" ∨
+        Ford.C07Gen.hostTables.lookup "all_procs" = some "merge-local-over-host") ∧
+      (Ford.C07Gen.hostTables.lookup "all_types" = some "alias" ∨ Ford.C07Gen.hostTables.lookup "all_types" = some "copy") ∧
+      Ford.C07Gen.hostTables.lookup "all_absinterfaces" = Ford.C07Gen.hostTables.lookup "all_types" := by
   decide
 
-/-- `FortranModule.get_used_entities` has the shape the model's `usedObjects` / `usedNames`
-    transcribe: `result` starts as an EMPTY dict and receives one write per public entity of the
-    module - under `used_names[name]` if listed (ONLY), under `used_names.get(name, name)`
-    without ONLY - and nothing else touches it; `used_names` maps the module's name to the local
-    name; a USE without list hands out the public tables themselves. -/
+/-- **used_objects_generated.**  The model's `importTable` (+ the lookup rule of the slot kind) reproduces
+    `FortranModule.get_used_entities` as the working tree runs it: for each of the probed USE statements -
+    no list, renames without ONLY, ONLY lists with and without renames, any letter case and layout - and
+    every candidate name (the module's names, the local names of the renames), the entity FORD links a
+    `type(name)` / `procedure(name)` reference of the using unit to is the one the model computes from
+    the statement; in particular a renamed entity is found under its local name and NOT under its
+    original one, and a name that is not on an ONLY list is not found.  All three forms are probed. -/
 theorem used_objects_generated :
-    Ford.C07Gen.usedObjectsInit = ["{}"] ∧
-      Ford.C07Gen.usedObjectsLoops = ["object_collection.items()"] ∧
-      Ford.C07Gen.usedObjectsWrites =
-        [("only and name in used_names", "used_names[name]", "obj"),
-         ("not (only)", "used_names.get(name, name)", "obj")] ∧
-      Ford.C07Gen.usedObjectsOther = [] ∧
-      Ford.C07Gen.usedObjectsCalls =
-        ["'pub_procs', only", "'pub_absints', only", "'pub_types', only", "'pub_vars', only"] ∧
-      Ford.C07Gen.usedNamesWrites.map (fun w => (w.2.1, w.2.2)) =
-        [("match.group(2).lower()", "match.group(1).lower()"), ("item.lower()", "item.lower()")] ∧
-      Ford.C07Gen.useWithoutList =
-        ("len(use_specs.strip()) == 0", "(self.pub_procs, self.pub_absints, self.pub_types, self.pub_vars)") := by
-  decide
+    (∀ p ∈ Ford.C07Gen.useProbes, ∀ q ∈ p.2.2,
+      lookupSlot
+        ⟨importTable Ford.C07Gen.usePubProcs ⟨[], p.1, p.2.1⟩, importTable Ford.C07Gen.usePubAbs ⟨[], p.1, p.2.1⟩,
+         importTable Ford.C07Gen.usePubTypes ⟨[], p.1, p.2.1⟩⟩
+        ⟨0, if q.1 then .ty else .pa, .late, q.2.1⟩ = q.2.2) ∧
+      (Ford.C07Gen.useProbes.any fun p => !p.1 && p.2.1.isEmpty) = true ∧
+      (Ford.C07Gen.useProbes.any fun p => !p.1 && !p.2.1.isEmpty) = true ∧
+      (Ford.C07Gen.useProbes.any fun p => p.1 && p.2.1.any fun lr => lr.1 != lr.2) = true ∧
+      (Ford.C07Gen.useProbes.all fun p => p.2.2.length == 9) = true := by decide
 
-/-- the statement dispatcher `FortranContainer.__init__` (regenerated from the source): `blocklevel`
-    is counted up by the BLOCK branch and down by the END branch, and the branches of derived-type
-    definitions, interface blocks, enumerations, variable declarations and attribute statements are
-    switched off inside a BLOCK (`blocklevel == 0` in their tests) - so the registration behaviour
-    of the working tree files no block-local declaration in the enclosing unit. -/
+/-- BLOCK constructs as the working tree parses them (probed): derived-type definitions, interface
+    blocks, abstract interfaces, enumerations, variable declarations and attribute statements inside a
+    BLOCK are NOT filed in the enclosing unit; nested and labelled BLOCKs are counted (a unit closes at
+    its own END statement, a declaration after the END of a nested BLOCK is still inside the outer
+    one) - so the registration behaviour of the working tree files no block-local declaration. -/
 theorem block_guards_generated :
-    Ford.C07Gen.blockGuards.lookup "TYPE_RE" = some true ∧
-      Ford.C07Gen.blockGuards.lookup "INTERFACE_RE" = some true ∧
-      Ford.C07Gen.blockGuards.lookup "ENUM_RE" = some true ∧
-      Ford.C07Gen.blockGuards.lookup "VARIABLE_RE" = some true ∧
-      Ford.C07Gen.blockGuards.lookup "ATTRIB_RE" = some true ∧
-      (Ford.C07Gen.blockGuards.lookup "USE_RE").isSome = true ∧
-      Ford.C07Gen.blockCounter = [("END_RE", "blocklevel -= 1"), ("BLOCK_RE", "blocklevel += 1")] ∧
-      (regOfTable Ford.C07Gen.blockGuards Ford.C07Gen.useBranchBlockAware).ty = false ∧
-      (regOfTable Ford.C07Gen.blockGuards Ford.C07Gen.useBranchBlockAware).ifc = false := by decide
+    Ford.C07Gen.blockFiled.lookup "type" = some false ∧
+      Ford.C07Gen.blockFiled.lookup "interface" = some false ∧
+      Ford.C07Gen.blockFiled.lookup "absinterface" = some false ∧
+      Ford.C07Gen.blockFiled.lookup "enum" = some false ∧
+      Ford.C07Gen.blockFiled.lookup "variable" = some false ∧
+      Ford.C07Gen.blockFiled.lookup "attribute" = some false ∧
+      (Ford.C07Gen.blockFiled.lookup "use").isSome = true ∧
+      Ford.C07Gen.blockNesting.length = 3 ∧ (Ford.C07Gen.blockNesting.all (·.2)) = true ∧
+      (regOfTable Ford.C07Gen.blockFiled).ty = false ∧
+      (regOfTable Ford.C07Gen.blockFiled).ifc = false := by decide
 
-/-- **blocks_invisible_generated.**  For the dispatcher of the working tree: a program whose BLOCK
+/-- **blocks_invisible_generated.**  For the parser of the working tree: a program whose BLOCK
     constructs contain no USE statement is parsed into the object tree of the program without its
-    BLOCKs (hence resolves every reference alike, in every variant); if the tree's USE branch is
-    switched off inside BLOCKs as well, this holds for every program. -/
+    BLOCKs (hence resolves every reference alike, in every variant); if a USE inside a BLOCK is not
+    filed in the enclosing unit either, this holds for every program. -/
 theorem blocks_invisible_generated (s : BScope) :
     (noBlockUse s = true →
-      flatten (regOfTable Ford.C07Gen.blockGuards Ford.C07Gen.useBranchBlockAware) s = eraseBlocks s) ∧
-    ((regOfTable Ford.C07Gen.blockGuards Ford.C07Gen.useBranchBlockAware).use = false →
-      flatten (regOfTable Ford.C07Gen.blockGuards Ford.C07Gen.useBranchBlockAware) s = eraseBlocks s) := by
-  have ht : (regOfTable Ford.C07Gen.blockGuards Ford.C07Gen.useBranchBlockAware).ty = false := by decide
-  have hi : (regOfTable Ford.C07Gen.blockGuards Ford.C07Gen.useBranchBlockAware).ifc = false := by decide
+      flatten (regOfTable Ford.C07Gen.blockFiled) s = eraseBlocks s) ∧
+    ((regOfTable Ford.C07Gen.blockFiled).use = false →
+      flatten (regOfTable Ford.C07Gen.blockFiled) s = eraseBlocks s) := by
+  have ht : (regOfTable Ford.C07Gen.blockFiled).ty = false := by decide
+  have hi : (regOfTable Ford.C07Gen.blockFiled).ifc = false := by decide
   exact ⟨fun h => flatten_noBlockUse _ ht hi s h, fun hu => flatten_none _ hu ht hi s⟩
 
-/-- `FortranBoundProcedure.correlate` (regenerated): the entries of `bindings` are written in two
-    places only - for a GENERIC binding from the dict of the type's bindings by name, for a binding
-    that is NOT DEFERRED from `all_procs` - so the name of a deferred binding is looked up nowhere
-    (`bindTableOf`); the interface of a binding is looked up in `all_procs`, then in
-    `all_absinterfaces` (slot kind `pa`). -/
+/-- `FortranBoundProcedure.correlate` as the working tree runs it (probed on a witness that declares
+    the name as a derived type, a procedure, an abstract interface and a binding of the type, in all 16
+    combinations): the name on a SPECIFIC binding statement is looked up among the procedures of the
+    scope only, the name of a DEFERRED binding nowhere, the specifics of a GENERIC binding among the
+    bindings of the type only - the three answers of the model's `bindTableOf` -; the interface of a
+    deferred binding among the procedures, then the abstract interfaces (slot kind `pa`). -/
 theorem bound_procedure_lookup_generated :
-    Ford.C07Gen.boundBindingWrites =
-        [("self.generic", "parent_boundprocs[binding_name]"),
-         ("not (self.generic) and not self.deferred", "self.all_procs[self.bindings[i].lower()]")] ∧
-      Ford.C07Gen.boundLocalTables =
-        [("self.generic", "parent_boundprocs", "{proc.name.lower(): proc for proc in self.parent.boundprocs if proc}")] ∧
-      Ford.C07Gen.boundOtherWrites = [] ∧
-      Ford.C07Gen.boundProtoWrites =
-        [("self.proto and proto_lower in self.all_procs", "self.all_procs[proto_lower]"),
-         ("self.proto and not (proto_lower in self.all_procs) and proto_lower in self.parent.all_absinterfaces",
-          "self.parent.all_absinterfaces[proto_lower]")] := by decide
+    (bindTableOf false false = .scopeProcs ∧
+        Ford.C07Gen.slotLookups.lookup "binding target" = some ["all_procs"]) ∧
+      (bindTableOf false true = .nowhere ∧
+        Ford.C07Gen.slotLookups.lookup "deferred binding name" = some []) ∧
+      (bindTableOf true false = .typeBindings ∧ bindTableOf true true = .typeBindings ∧
+        Ford.C07Gen.slotLookups.lookup "generic binding specific" = some ["bindings"]) ∧
+      Ford.C07Gen.slotLookups.lookup "deferred binding interface" = some ["all_procs", "all_absinterfaces"] := by
+  decide
 
-/-- the name tables are bound or edited only where the model builds them (regenerated from both
-    source files): `_cleanup` of the code unit enters the nested procedures, every non-abstract
-    interface and the interface bodies of generic interfaces into `all_procs` (model: `localProcs`;
-    a module adds its procedure pointers) and NO other `_cleanup` touches a table - in particular
+/-- the name tables are bound or edited only where the model builds them (read from both source
+    files, normalised to a set of (table, bind / write / remove) per function - whatever the
+    statements are called, however many there are): the units build them - `_cleanup` of the code
+    unit `all_procs` (model: `localProcs`; a module adds its procedure pointers), `correlate` of the
+    code unit all three - and NO other `_cleanup` touches a table - in particular
     `FortranProcedure._cleanup`, which makes the interface body of a dummy procedure the argument
-    object, keeps its entry -; `correlate` of the code unit adds the local abstract interfaces and
-    types and the USE imports (the submodule inheritance: `submodule_lookup_generated`); reference
-    owners only alias their parent's tables. -/
+    object, keeps its entry -; the reference owners only bind their parent's tables (they never
+    write into one); nothing is ever removed from a table. -/
 theorem name_tables_generated :
     Ford.C07Gen.nameTableSites =
         ["FortranCodeUnit._common_initialize", "FortranCodeUnit._cleanup", "FortranCodeUnit.correlate",
          "FortranModule._cleanup", "FortranType.correlate", "FortranInterface.correlate",
          "FortranFinalProc.correlate", "FortranBoundProcedure.correlate", "FortranBlockData.correlate"] ∧
-      Ford.C07Gen.cleanupTableWrites =
-        [("FortranCodeUnit._cleanup", "self.all_procs = {p.name.lower(): p for p in self.routines}"),
-         ("FortranCodeUnit._cleanup", "self.all_procs[interface.name.lower()] = interface"),
-         ("FortranCodeUnit._cleanup", "self.all_procs[proc.name.lower()] = proc"),
-         ("FortranModule._cleanup", "self.all_procs[var.name.lower()] = var")] ∧
-      Ford.C07Gen.correlateTableWrites =
-        ["self.all_absinterfaces[ai.name.lower()] = ai", "self.all_types[dt.name.lower()] = dt",
-         "self.all_procs.update(procs)", "self.all_absinterfaces.update(absints)", "self.all_types.update(types)"] := by
+      (Ford.C07Gen.nameTableOps.all fun o => o.2.2 == "bind" || o.2.2 == "write") = true ∧
+      ((Ford.C07Gen.nameTableOps.filter fun o =>
+          ["FortranType.correlate", "FortranInterface.correlate", "FortranFinalProc.correlate",
+           "FortranBoundProcedure.correlate"].contains o.1).all fun o => o.2.2 == "bind") = true ∧
+      ((Ford.C07Gen.nameTableOps.filter fun o =>
+          ["FortranCodeUnit._common_initialize", "FortranCodeUnit._cleanup", "FortranModule._cleanup"].contains o.1).all
+          fun o => o.2.1 == "all_procs") = true ∧
+      ((Ford.C07Gen.nameTableOps.filter fun o => o.1 == "FortranCodeUnit.correlate").map (·.2.1)).eraseDups =
+        ["all_absinterfaces", "all_procs", "all_types"] := by
   decide
 
-/-- `FortranType.correlate` (regenerated): `boundprocs` becomes the inherited bindings followed by
-    the own ones, and an inherited generic binding is a `copy.copy` of the parent's object that
-    either keeps the parent's list of specifics (code as found, model `shared = true`) or is given
-    a list of its own right after the copy (`shared = false`) - the two shapes the model has. -/
+/-- `FortranType.correlate` as the working tree runs it (probed: `ta` with bindings pa, pz and the
+    generic g1 => pa, `tb` extends `ta` and overrides pa): `boundprocs` of the extension is the
+    inherited bindings followed by the own ones, and the inherited copy of the generic binding either
+    keeps the parent's list of specifics - then the PARENT's generic is linked to the extension's
+    binding (code as found, model `shared = true`) - or has a list of its own and the parent's generic
+    stays with the parent's binding (`shared = false`); the extension's copy names the extension's
+    binding in both.  The two shapes the model has. -/
 theorem inherited_generic_generated :
-    Ford.C07Gen.boundprocsBuild = ["inherited + self.boundprocs"] ∧
-      (Ford.C07Gen.inheritedGenericStmts =
-          ["gen = copy.copy(bp)", "gen.parent = self", "inherited.append(gen)",
-           "gen = copy.copy(bp)", "gen.parent = self", "inherited_generic.append(gen)"] ∨
-        Ford.C07Gen.inheritedGenericStmts =
-          ["gen = copy.copy(bp)", "gen.bindings = list(bp.bindings)", "gen.parent = self", "inherited.append(gen)",
-           "gen = copy.copy(bp)", "gen.bindings = list(bp.bindings)", "gen.parent = self",
-           "inherited_generic.append(gen)"]) := by decide
-
-/-- submodules (regenerated): `find_used_modules` picks the parent submodule out of the project's
-    list either by its name alone (code as found, model `parentByName`) or by name and ancestor
-    module; `FortranCodeUnit.correlate` brings in the three tables of the parent submodule if it
-    was found, else of the ancestor module (model `hostTabs`) - by `update`, which overwrites the
-    local declarations (code as found, model `ancOverLocal`), or merged under them. -/
-theorem submodule_lookup_generated :
-    (Ford.C07Gen.submoduleParentTest = "parent_submodule_name == submod.name.lower()" ∨
-      Ford.C07Gen.submoduleParentTest =
-        "parent_submodule_name == submod.name.lower() and ancestor_module_name == _ancestor_name(submod)") ∧
-      (Ford.C07Gen.submoduleInherit =
-        [("isinstance(self, FortranSubmodule) and isinstance(self.parent_submodule, FortranSubmodule)",
-          "self.all_procs.update(self.parent_submodule.all_procs)"),
-         ("isinstance(self, FortranSubmodule) and isinstance(self.parent_submodule, FortranSubmodule)",
-          "self.all_absinterfaces.update(self.parent_submodule.all_absinterfaces)"),
-         ("isinstance(self, FortranSubmodule) and isinstance(self.parent_submodule, FortranSubmodule)",
-          "self.all_types.update(self.parent_submodule.all_types)"),
-         ("isinstance(self, FortranSubmodule) and not (isinstance(self.parent_submodule, FortranSubmodule)) and isinstance(self.ancestor_module, FortranModule)",
-          "self.all_procs.update(self.ancestor_module.all_procs)"),
-         ("isinstance(self, FortranSubmodule) and not (isinstance(self.parent_submodule, FortranSubmodule)) and isinstance(self.ancestor_module, FortranModule)",
-          "self.all_absinterfaces.update(self.ancestor_module.all_absinterfaces)"),
-         ("isinstance(self, FortranSubmodule) and not (isinstance(self.parent_submodule, FortranSubmodule)) and isinstance(self.ancestor_module, FortranModule)",
-          "self.all_types.update(self.ancestor_module.all_types)")] ∨
-       Ford.C07Gen.submoduleInherit =
-        [("isinstance(self, FortranSubmodule) and isinstance(self.parent_submodule, FortranSubmodule)",
-          "submodule_host = self.parent_submodule"),
-         ("isinstance(self, FortranSubmodule) and not (isinstance(self.parent_submodule, FortranSubmodule)) and isinstance(self.ancestor_module, FortranModule)",
-          "submodule_host = self.ancestor_module"),
-         ("submodule_host is not None", "self.all_procs = {**submodule_host.all_procs, **self.all_procs}"),
-         ("submodule_host is not None",
-          "self.all_absinterfaces = {**submodule_host.all_absinterfaces, **self.all_absinterfaces}"),
-         ("submodule_host is not None", "self.all_types = {**submodule_host.all_types, **self.all_types}")]) := by
+    Ford.C07Gen.boundprocsOrder = ["pz", "g1", "pa"] ∧
+      ((Ford.C07Gen.inheritedGenericShared = true ∧ Ford.C07Gen.inheritedGenericWitness = ("tb", "tb")) ∨
+        (Ford.C07Gen.inheritedGenericShared = false ∧ Ford.C07Gen.inheritedGenericWitness = ("ta", "tb"))) := by
   decide
 
-/-- the tables each reference owner consults (regenerated): a variable `all_types` for
-    type(...)/class(...), `all_absinterfaces` and `all_procs` for procedure(...); a finaliser, the
-    specific procedures of a generic interface and the constructor `all_procs` only. -/
+/-- submodules as the working tree correlates them (probed on a witness with two modules that each
+    have a submodule `s1`): the parent of `submodule (m1:s1) s3` is found either by its name alone (code
+    as found, model `parentByName`: m0's `s1`, and a name only that one can see gets linked) or by
+    ancestor module and name (the name stays text); a submodule's own type / procedure either loses
+    against the same-named one of its ancestor module (code as found, model `ancOverLocal`) or shadows
+    it - both kinds alike -, and a separate module procedure whose name both its parent submodule and
+    the ancestor module declare an interface for is paired accordingly (with the ancestor module's
+    resp. with the innermost one, the parent submodule's; model `pairLookup`); the entities of the
+    parent submodule, and through it of the ancestor module, are visible (model `hostTabs`). -/
+theorem submodule_lookup_generated :
+    Ford.C07Gen.submoduleProbes.length = 7 ∧
+      (((Ford.C07Gen.submoduleProbes.map (·.2)).take 2 = ["ancestor", "ancestor"] ∧
+          (Ford.C07Gen.submoduleProbes.map (·.2)).drop 6 = ["ancestor module's"]) ∨
+        ((Ford.C07Gen.submoduleProbes.map (·.2)).take 2 = ["local", "local"] ∧
+          (Ford.C07Gen.submoduleProbes.map (·.2)).drop 6 = ["parent submodule's"])) ∧
+      ((((Ford.C07Gen.submoduleProbes.map (·.2)).drop 2).take 2 = ["by name", "linked"]) ∨
+        (((Ford.C07Gen.submoduleProbes.map (·.2)).drop 2).take 2 = ["same ancestor", "text"])) ∧
+      ((Ford.C07Gen.submoduleProbes.map (·.2)).drop 4).take 2 = ["linked", "linked"] := by
+  decide
+
+/-- the name spaces each kind of reference is looked up in, in priority order, as the working tree
+    does it (probed, see `bound_procedure_lookup_generated`), are those of the model's slot kinds:
+    `ty` (parent type, components, variables, arguments of type(...) / class(...)) = the types only;
+    `pa` (procedure(...) of components, variables, results) = the procedures, then the abstract
+    interfaces; `pr` (finaliser, constructor, specific procedure of a generic interface) = the
+    procedures only; and a reference is found whatever its letter case. -/
 theorem slot_lookups_generated :
-    Ford.C07Gen.slotLookups.lookup "FortranVariable" = some ["all_types", "all_absinterfaces", "all_procs"] ∧
-      (Ford.C07Gen.slotLookups.lookup "FortranFinalProc").map (·.eraseDups) = some ["all_procs"] ∧
-      (Ford.C07Gen.slotLookups.lookup "FortranBoundProcedure").map (·.eraseDups) = some ["all_procs", "all_absinterfaces"] := by
+    (["parent type", "component type", "variable type", "variable class", "argument type"].all fun k =>
+        Ford.C07Gen.slotLookups.lookup k == some ["all_types"]) = true ∧
+      (["component procedure", "variable procedure", "result procedure"].all fun k =>
+        Ford.C07Gen.slotLookups.lookup k == some ["all_procs", "all_absinterfaces"]) = true ∧
+      (["finaliser", "constructor", "generic interface specific"].all fun k =>
+        Ford.C07Gen.slotLookups.lookup k == some ["all_procs"]) = true ∧
+      Ford.C07Gen.lookupsIgnoreCase = true := by
   decide
 
 end Ford.C07
